@@ -2,56 +2,9 @@
 `operator/multi/h.rs`: h1, h2, the cursor loop of h.
 (split out of GenRegs2.lean so that an equality that no longer holds blocks only the properties that rely on it)
 -/
-import Qvnt.Lemmas.GenBits
-import Qvnt.Lemmas.GenOps
-
-set_option linter.unusedSectionVars false
-
-namespace Qvnt.Gen2
-open Qvnt Qvnt.Gen
-
-variable {R : Type}
-
-/-- the atom constructors used below (the same statements are proved for all atoms in `GenKernels`) -/
-theorem h1_new_eq' (a : Nat) : (Gen.h1_new a : Atom R) = .h1 a := rfl
-theorem h2_new_eq' (a b : Nat) : (Gen.h2_new a b : Atom R) = .h2 a b (a ||| b) := rfl
-theorem y_new_eq' (a : Nat) : (Gen.y_new a : Atom R) = .y a (yIPow a) := by
-  unfold Gen.y_new; simp only [yIPow_eq]
-
-/-! ### `multi::h::h` (`operator/multi/h.rs`) -/
-section hgate
-variable [Add R] [Sub R] [Mul R] [Div R] [Neg R] [Zero R] [One R] [Consts R]
-
-theorem single_from_eq (g : Atom R) : single_from g = SingleOp.ofAtom g := rfl
-
-theorem h_loop_eq (a fuel p f : Nat) (b : Bool) (acc : MultiOp R) (hp : p < 2 ^ 64) :
-    (h_h_loop1 a fuel ((p, f), b, acc)).map (fun s => (s.1.2, s.2.1, s.2.2)) = Op.hLoop a fuel p f b acc := by
-  induction fuel generalizing p f b acc with
-  | zero => simp [h_h_loop1, Op.hLoop]
-  | succ n ih =>
-    have hs : shl1 p < 2 ^ 64 := by unfold shl1 W; exact Nat.mod_lt _ (by decide)
-    unfold h_h_loop1 Op.hLoop
-    by_cases hc : (p != 0 && decide (p ≤ a)) = true
-    · by_cases hb : (p &&& a != 0) = true
-      · cases b
-        · simp [hc, hb, shl_pos p hp, ← ih _ _ _ _ hs, h_h2, single_from, h2_new_eq', SingleOp.ofAtom]
-        · simp [hc, hb, shl_pos p hp, ← ih _ _ _ _ hs]
-      · simp [hc, hb, shl_pos p hp, ← ih _ _ _ _ hs]
-    · simp [hc]
-
-theorem h_h_eq (a : Nat) : h_h (R := R) a = Op.h a := by
-  unfold h_h Op.h
-  cases hc : popcount a with
-  | zero => simp
-  | succ k =>
-    cases k with
-    | zero => simp [h_h1, single_from, h1_new_eq', SingleOp.ofAtom]
-    | succ k =>
-      simp only [beq_iff_eq, Nat.succ_ne_zero, ↓reduceIte, Nat.add_eq_right]
-      rw [← h_loop_eq a (W + 2) 1 0 true [] (by decide)]
-      cases h_h_loop1 (R := R) a (W + 2) ((1, 0), true, []) with
-      | none => simp
-      | some st => cases hb : st.2.1 <;> simp [hb, h_h1, single_from, h1_new_eq', SingleOp.ofAtom]
-
-end hgate
-end Qvnt.Gen2
+import Qvnt.Lemmas.GenH.h1_new_eq_p
+import Qvnt.Lemmas.GenH.h2_new_eq_p
+import Qvnt.Lemmas.GenH.y_new_eq_p
+import Qvnt.Lemmas.GenH.single_from_eq
+import Qvnt.Lemmas.GenH.h_loop_eq
+import Qvnt.Lemmas.GenH.h_h_eq
